@@ -43,9 +43,22 @@ Tie: Model/Harm.lean is hand-written; it is compared with the real code
     spacings (every float operation exact) — exactly; the extrapolation branch
     and the compiled interval search of scipy — exactly.
 
+Fourth module Props/C20d.lean: the classical error bound of (tri)linear
+interpolation (1-D by Rolle, tensor product on a cell, lifted through the cell
+search of the model to every target inside the grid: (hx^2 Mx + hy^2 My +
+hz^2 Mz)/8 with the pure second partials only; T23-T26), the real copy of
+Model/Interp equals the executable model on rational data (T25), and the sphere
+extraction of Psi4_lm end to end on the models: for a field with bounded second
+partials that is band-limited / a pure harmonic on the extraction sphere the
+extracted coefficient is the amplitude up to C1 (hx^2+hy^2+hz^2) + C2/(Ntheta+1)^2
+with explicit constants, and converges along every sequence of grids with widths
+-> 0 and Ntheta -> infinity (T27-T30); local / node-wise versions (T31).  The
+sentinel checks both proven bounds on the REAL code (s_interp_bound, s_psi4_bound).
+
 NOT proven (sentinel only, on the REAL code, oracle independent of model and
-code): the spatial interpolation error of non-trilinear fields and hence the
-convergence of rel['Psi4_lm'] on an injected pure mode with GRID resolution,
+code): the O(h^2) rate for fields that are NOT smooth in Cartesian coordinates
+(A (s)Y_lm(theta,phi) g(r) is in general discontinuous across the polar axis; the
+injected pure modes of s_psi4 are of this kind — only the node-wise T31 applies),
 interpolation methods other than 'linear', IEEE round-off.  The sentinel also
 keeps Gauss-Legendre x trapezoid quadrature of all pairs, the agreement with an
 independent Wigner-d/Jacobi implementation and with scipy's ordinary harmonics
@@ -72,7 +85,13 @@ THEOREMS_B = ["AurelVerif.C20." + t for t in (
 MODULE_C = "AurelVerif.Props.C20c"
 THEOREMS_C = ["AurelVerif.C20." + t for t in (
     "orthonormal_all", "gram_integer_identities", "grid_gram_defect_all", "roundtrip_converges", "midpoint_rule")]
-LEAN_FILES = ["AurelVerif/Props/C20c.lean", "AurelVerif/Lemmas/C20JacobiInteg.lean", "AurelVerif/Lemmas/C20JacobiPoly.lean",
+MODULE_D = "AurelVerif.Props.C20d"
+THEOREMS_D = ["AurelVerif.C20." + t for t in (
+    "linear_interp_error_1d", "trilinear_interp_error_cell", "real_interpolant_is_model", "linear_interpolation_error",
+    "psi4lm_extraction_error", "psi4lm_pure_mode", "psi4lm_rate", "psi4lm_converges", "extraction_error_local")]
+LEAN_FILES = ["AurelVerif/Props/C20d.lean", "AurelVerif/Lemmas/C20LinErr.lean", "AurelVerif/Lemmas/C20InterpR.lean",
+              "AurelVerif/Lemmas/C20Extract.lean", "AurelVerif/Lemmas/C20ExtractEx.lean",
+              "AurelVerif/Props/C20c.lean", "AurelVerif/Lemmas/C20JacobiInteg.lean", "AurelVerif/Lemmas/C20JacobiPoly.lean",
               "AurelVerif/Lemmas/C20Jacobi.lean", "AurelVerif/Lemmas/C20JacobiAll.lean",
               "AurelVerif/Lemmas/C20Midpoint.lean", "AurelVerif/Lemmas/C20MidpointHarm.lean",
               "AurelVerif/Lemmas/C20QuadAll.lean",
@@ -1041,6 +1060,151 @@ def s_psi4(ctx, modes):
     return found
 
 
+def s_interp_bound(ctx, ncases):
+    """The PROVEN bound of Props/C20d (T26) on the real code: for a field with known
+    bounds Mx, My, Mz of its pure second partials, sampled on a strictly ascending
+    (uniform or irregular) grid with largest cell widths hx, hy, hz,
+    |numerical.interpolate(method='linear') - f| <= (hx^2 Mx + hy^2 My + hz^2 Mz)/8
+    at every target inside the grid.  The constant 1/8 is sharp (f = x^2 at cell
+    midpoints), so e.g. a nearest-neighbour or shifted-cell interpolation fails."""
+    from aurel import numerical
+    found = 0
+    rs = np.random.default_rng(ctx.rng.getrandbits(32))
+    for case in range(ncases):
+        uniform = case % 2 == 0
+        if uniform:
+            grids = tuple(np.linspace(-1.0 - 0.1 * i, 1.0 + 0.05 * i, int(rs.integers(5, 12))) for i in range(3))
+        else:
+            grids = tuple(np.sort(np.concatenate([[-1.0, 1.0], rs.uniform(-1, 1, int(rs.integers(3, 9)))])) for _ in range(3))
+            if min(np.min(np.diff(g)) for g in grids) < 1e-3:
+                continue
+        h = [float(np.max(np.diff(g))) for g in grids]
+        X, Y, Z = np.meshgrid(*grids, indexing="ij")
+        kind = case % 3
+        if kind == 0:      # plane wave + mixed term (mixed partials must not matter)
+            k = rs.uniform(-3, 3, 3)
+            ph0, c = rs.uniform(0, 6), rs.uniform(-5, 5)
+            f = lambda x, y, z: np.sin(k[0] * x + k[1] * y + k[2] * z + ph0) + c * x * y * z  # noqa
+            M = [k[0] ** 2, k[1] ** 2, k[2] ** 2]
+        elif kind == 1:    # the sharp case: a pure quadratic
+            q = rs.uniform(-2, 2, 3)
+            f = lambda x, y, z: q[0] * x * x + q[1] * y * y + q[2] * z * z + x * y - 3 * y * z  # noqa
+            M = [2 * abs(q[0]), 2 * abs(q[1]), 2 * abs(q[2])]
+        else:              # Gaussian profile: |d2/dx2 exp(-a r^2)| <= 2a
+            a = rs.uniform(0.2, 2.0)
+            f = lambda x, y, z: np.exp(-a * (x * x + y * y + z * z))  # noqa
+            M = [2 * a, 2 * a, 2 * a]
+        bound = float((h[0] ** 2 * M[0] + h[1] ** 2 * M[1] + h[2] ** 2 * M[2]) / 8)
+        npt = 400
+        tg = [rs.uniform(g[0], g[-1], npt) for g in grids]
+        # cell midpoints (where the bound is attained for quadratics) and a few nodes / faces
+        for ax, g in enumerate(grids):
+            mids = 0.5 * (g[1:] + g[:-1])
+            tg[ax][:min(60, npt)] = rs.choice(mids, min(60, npt))
+            tg[ax][60:80] = rs.choice(g, 20)
+        tg = tuple(t.reshape(20, 20) for t in tg)
+        ctx.count("interp_bound_targets", npt)
+        try:
+            got = numerical.interpolate(f(X, Y, Z), grids, tg, method="linear")
+            err = np.abs(got - f(*tg))
+            dev = float(np.max(err - bound))
+            ratio = float(np.max(err) / bound) if bound > 0 else 0.0
+        except Exception as ex:  # noqa
+            dev, ratio = float("inf"), float("inf")
+            ctx.notes.append("interpolate(linear) raised on a smooth field: %r" % (ex,))
+        ctx.cov["interp_bound_max_ratio"] = max(ctx.cov.get("interp_bound_max_ratio", 0.0), ratio)
+        if dev > 1e-12 * max(1.0, bound):
+            found += ctx.violation(
+                "interpolate(method=linear): error exceeds the proven bound (hx^2 Mx+hy^2 My+hz^2 Mz)/8 = %r by %r (field kind %d, %s grid)"
+                % (bound, dev, kind, "uniform" if uniform else "irregular"),
+                {"kind": "input", "check": "interp_bound", "observed": dev, "bound": bound},
+                {"site": "interpolate", "check": "interp_bound"})
+    return found
+
+
+def _model_terms(s, l, m):
+    """coefficients of the closed-form sum of sYlm (the formula of the docstring of maths.sYlm, re-derived here)."""
+    from math import comb
+    out = []
+    if l < abs(s) or abs(m) > l:
+        return out
+    for r in range(max(m - s, 0), min(l + m, l - s) + 1):
+        out.append(comb(l - s, r) * comb(l + s, r + s - m) * (-1) ** (l - r - s))
+    return out
+
+
+def _radicand(s, l, m):
+    f = math.factorial
+    return Fraction(f(l + m) * f(l - m) * (2 * l + 1), f(l + s) * f(l - s) * 4)
+
+
+def proven_psi4_bound(s, l, m, l0, m0, ntheta, amp, e_interp):
+    """Right-hand side of Props/C20d T28 (psi4lm_pure_mode): harmSup * 2 pi^2 * E_interp
+    + [m == m0] defectBound(s, N, l, m, l0) * |amp|."""
+    t = _model_terms(s, l, m)
+    harm_sup = math.sqrt(float(_radicand(s, l, m)) / math.pi) * sum(abs(c) for c in t) if t else 0.0
+    b = harm_sup * 2 * math.pi ** 2 * e_interp
+    if m == m0:
+        t0 = _model_terms(s, l0, m)
+        abs_gram = sum(abs(c) * abs(c0) for c in t for c0 in t0)
+        ktheta = 2 * abs_gram * (l + l0 + 1) ** 2
+        if t and t0:
+            b += (math.sqrt(float(_radicand(s, l, m)) / math.pi) * math.sqrt(float(_radicand(s, l0, m)) / math.pi)
+                  * 2 * math.pi * ktheta * math.pi ** 3 / (24 * (ntheta + 1) ** 2)) * abs(amp)
+    return b
+
+
+def psi4_smooth_case(n, lmax, radius, center, A):
+    """Psi4 = A ((x-cx)^2 + (y-cy)^2): smooth in Cartesian coordinates, NOT trilinear, and on the
+    extraction sphere equal to amp * (-2)Y_20, amp = A R^2 (2/3)/sqrt(5/(24 pi)) (Props/C20d, exF_on_sphere).
+    Returns (worst excess over the proven bound, worst error, coefficient dict)."""
+    import aurel
+    L = 1.0
+    d = 2 * L / (n - 1)
+    param = {"Nx": n, "Ny": n, "Nz": n, "xmin": -L, "ymin": -L, "zmin": -L, "dx": d, "dy": d, "dz": d}
+    fd = aurel.FiniteDifference(param, verbose=False)
+    rel = aurel.AurelCore(fd, verbose=False, lmax=lmax, extract_radii=[radius], interp_method="linear", center=center)
+    x, y = fd.x - center[0], fd.y - center[1]
+    f = A * (x * x + y * y)
+    rel.data["Weyl_Psi4r"] = np.real(f).copy()
+    rel.data["Weyl_Psi4i"] = np.imag(f).copy()
+    a = rel["Psi4_lm"][radius]
+    amp = A * radius ** 2 * (2.0 / 3.0) / math.sqrt(5.0 / (24.0 * math.pi))
+    ntheta = max(n, lmax + 1)
+    h = [float(np.max(np.diff(np.asarray(g)))) for g in (fd.xarray, fd.yarray, fd.zarray)]
+    e_interp = (h[0] ** 2 * 2 * abs(A.real) + h[1] ** 2 * 2 * abs(A.real)) / 8 + (h[0] ** 2 * 2 * abs(A.imag) + h[1] ** 2 * 2 * abs(A.imag)) / 8
+    worst, werr = -float("inf"), 0.0
+    for (l, m), c in a.items():
+        err = abs(c - (amp if (l, m) == (2, 0) else 0))
+        werr = max(werr, err)
+        worst = max(worst, err - proven_psi4_bound(-2, l, m, 2, 0, ntheta, amp, e_interp))
+    return float(worst), float(werr), a, amp
+
+
+def s_psi4_bound(ctx, cases):
+    """The PROVEN end-to-end bound (Props/C20d T28) on the real code, for a Cartesian-smooth field that is a
+    pure (-2)Y_20 on the extraction sphere; also O(h^2): the error at n = 25 is below 0.4 x the error at n = 13."""
+    found = 0
+    for case in cases:
+        center, radius = case[0], case[1]
+        A = case[2] if len(case) > 2 else complex(round(ctx.rng.uniform(0.3, 1.2), 2), round(ctx.rng.uniform(-1.2, -0.3), 2))
+        res = {n: psi4_smooth_case(n, 3, radius, center, A) for n in (13, 25)}
+        ctx.count("psi4_bound_runs", 2)
+        tag = "0" if center == (0.0, 0.0, 0.0) else "off"
+        ctx.cov["psi4_smooth_err_c%s" % tag] = [float(res[13][1]), float(res[25][1])]
+        bad = [n for n in res if not res[n][0] <= 1e-12]
+        slow = not (res[25][1] < 0.4 * res[13][1] + 1e-13)
+        if bad or slow:
+            found += ctx.violation(
+                "rel['Psi4_lm'] on Psi4 = A((x-cx)^2+(y-cy)^2), A=%r, centre %r, R=%r: error %r (n=13), %r (n=25); excess over the "
+                "proven bound %r, %r%s" % (A, center, radius, res[13][1], res[25][1], res[13][0], res[25][0],
+                                          "; not second order in h" if slow else ""),
+                {"kind": "input", "check": "psi4_bound", "center": list(center), "radius": radius, "A": [A.real, A.imag],
+                 "observed": [res[13][1], res[25][1]]},
+                {"site": "Psi4_lm", "check": "psi4_bound"})
+    return found
+
+
 def oracle_selfcheck(ctx):
     """The Jacobi-based oracle against sympy's Wigner d (small l): guards the
     oracle itself, never reported as a violation of the code."""
@@ -1068,12 +1232,15 @@ def search(ctx, deep=False):
     if ctx.tier == "thorough" or deep:
         modes += [(2, 0, (0.0, 0.0, 0.0)), (4, -2, (0.0, 0.0, 0.0)), (2, -2, (0.05, 0.05, -0.1)), (3, 3, (0.0, 0.0, 0.0))]
     found += s_psi4(ctx, modes)
+    found += s_interp_bound(ctx, ctx.budget(6, 24) * (2 if deep else 1))
+    found += s_psi4_bound(ctx, [((0.0, 0.0, 0.0), 0.6), ((0.1, -0.05, 0.07), 0.55)]
+                          + ([((0.0, 0.2, -0.1), 0.7)] if (ctx.tier == "thorough" or deep) else []))
     return found
 
 
 def run(ctx):
     ctx.trusted += ["Lean 4.33 kernel; axioms propext, Classical.choice, Quot.sound; Mathlib (Complex.exp, Real.sqrt, geom_sum, "
-                    "interval integrals / fundamental theorem of calculus, Polynomial.derivative)",
+                    "interval integrals / fundamental theorem of calculus, Polynomial.derivative, Rolle)",
                     "Model/Interp.lean is hand-written after scipy 1.18.1 (_rgi.py, _rgi_cython.pyx, _poly_common.pxi); tied to "
                     "numerical.interpolate(method='linear'), to the extrapolating interpolator object and to the compiled "
                     "find_indices EXACTLY on dyadic data (power-of-two spacings: all float operations exact)",
@@ -1085,8 +1252,13 @@ def run(ctx):
     ctx.assumptions += ["orthonormality is proven about the model function sYlmC (exact real/complex arithmetic, iterated "
                         "interval integrals) for all integers; the constant Ktheta of the O(1/(Ntheta+1)^2) bound of the "
                         "theta-midpoint error is rigorous but crude for large l (triangle inequality over coefficient pairs)",
-                        "NOT proven: the spatial interpolation error of non-trilinear fields, hence the convergence of "
-                        "rel['Psi4_lm'] with GRID resolution — numerical sentinel only",
+                        "the interpolation error bound (hx^2 Mx+hy^2 My+hz^2 Mz)/8 and the end-to-end extraction bound "
+                        "C1 (hx^2+hy^2+hz^2) + C2/(Ntheta+1)^2 (Props/C20d) are theorems about InterpR.interp3, the copy of "
+                        "Model/Interp over the reals (proven equal to the executable model on rational data), for fields "
+                        "with bounded pure second partials on the box of the grid, i.e. smooth in CARTESIAN coordinates; "
+                        "A (s)Y_lm(theta,phi) g(r) is in general discontinuous across the polar axis, so for the injected "
+                        "pure modes of the sentinel s_psi4 the O(h^2) rate is NOT claimed (only the node-wise T31) — "
+                        "numerical sentinel; both proven bounds are also checked on the real code (s_interp_bound, s_psi4_bound)",
                         "interpolation: only method='linear' on strictly ascending axes with >= 2 nodes is modelled; real "
                         "(non-dyadic) data are subject to round-off, which is not modelled",
                         "floating-point round-off is not modelled (exact real/complex arithmetic in the theorems)",
@@ -1095,9 +1267,10 @@ def run(ctx):
     ctx.prove(MODULE, THEOREMS)
     ctx.prove(MODULE_B, THEOREMS_B, timeout=2400)
     ctx.prove(MODULE_C, THEOREMS_C, timeout=2400)
+    ctx.prove(MODULE_D, THEOREMS_D, timeout=2400)
     ctx.forbidden_scan(LEAN_FILES)
     if ctx.tier == "thorough":
-        ctx.leanchecker([MODULE, MODULE_B, MODULE_C])
+        ctx.leanchecker([MODULE, MODULE_B, MODULE_C, MODULE_D])
     # correspondence
     for fn in (corr_ylm, corr_grid, corr_modes, corr_history, corr_bounds, corr_interp):
         try:
@@ -1135,6 +1308,10 @@ def replay(ctx, obj):
         n = int(not (r[32][0] < 0.6 * r[16][0] and r[32][0] < 0.05) or max(r[16][1], r[16][2], r[16][3]) > 1e-10 or not r[16][4])
     elif chk in ("interp_node", "interp_trilinear", "interp_outside"):
         n = s_interpolate(ctx, (obj.get("method", "linear"),))
+    elif chk == "interp_bound":
+        n = s_interp_bound(ctx, 24)
+    elif chk == "psi4_bound":
+        n = s_psi4_bound(ctx, [(tuple(obj["center"]), obj["radius"], complex(*obj["A"]))])
     elif chk == "psi4_mode":
         amp = complex(*obj["amp"])
         e = {k: psi4_mode_error(k, obj["l"], obj["m"], max(obj["l"], 3), 0.6, tuple(obj["center"]), amp)[0] for k in (12, 24)}
@@ -1151,7 +1328,7 @@ MANIFEST = {
     "technique": "Lean 4 theorems about a hand-written rational model of maths.sYlm, the Psi4_lm angular grids, "
                  "interpolate's bounds check and scipy's linear RegularGridInterpolator (omega / ring / geometric sum of a "
                  "root of unity / interval integrals and the fundamental theorem of calculus in Mathlib / Polynomial "
-                 "derivatives / kernel-decided integer tables), tied to the code by float (1e-12) and exact "
+                 "derivatives / kernel-decided integer tables / Rolle's theorem for the interpolation remainder), tied to the code by float (1e-12) and exact "
                  "correspondence; numerical sentinel for what remains analytic",
     "text": "PARTIAL proof. Proven for all parameters: (T1) every r of sYlm's loop has legal binomial arguments and "
             "non-negative exponents (no negative power at the poles), every r outside has a vanishing binomial (sum "
@@ -1195,10 +1372,35 @@ MANIFEST = {
             "sYlm_coefficients(sYlm_reconstruct(a)) has the closed-form defect of T13, an explicit O(1/(Ntheta+1)^2) error "
             "bound, and CONVERGES key by key to a (to 0 on the vanishing modes l<|s|) as Ntheta -> infinity; (T22) the "
             "composite midpoint rule |sum g(mid) h - int g| <= K M h^3/24 for |g''|<=K. "
-            "NOT proven, watched only numerically on the real code: the spatial interpolation error of non-trilinear "
-            "fields and hence the convergence of rel['Psi4_lm'] on an injected pure mode with GRID resolution (its angular "
-            "part is T21), interpolation methods other than linear, IEEE round-off; the constant Ktheta is crude for large "
-            "l; independent cross-checks kept: Gauss-Legendre x trapezoid quadrature of all pairs up to lmax 6/10, "
+            "SPATIAL INTERPOLATION ERROR AND THE EXTRACTION END TO END (Props/C20d): (T23) 1-D linear interpolation of g "
+            "(continuous on [a,b], twice differentiable inside, |g''|<=M): |(1-t)g(a)+t g(b)-g(a+t(b-a))| <= (b-a)^2 M/8 "
+            "(Rolle twice; constant sharp); (T24) tensor product on a cell: |trilinear interpolant of the 8 corner values - f| "
+            "<= ((x1-x0)^2 Mx+(y1-y0)^2 My+(z1-z0)^2 Mz)/8 with the PURE second partials only (1-D interpolation has "
+            "non-negative weights summing to 1); (T25) InterpR.interp3, the definitions of Model/Interp with Rat replaced by "
+            "the reals (needed: sphere points and harmonic values are irrational), returns on rational grids, values and "
+            "targets exactly the value of the executable model, and the same interval for every hint; (T26) lifted through "
+            "the cell search: at EVERY target inside a strictly ascending grid with cell widths <= hx,hy,hz, "
+            "|interpolant of f(nodes) - f| <= (hx^2 Mx+hy^2 My+hz^2 Mz)/8; (T27) psi4_sphere = interpolate(Re)+1j "
+            "interpolate(Im) on the points R(sin th cos ph, sin th sin ph, cos th) of the Psi4_lm grid followed by "
+            "sYlm_coefficients: if Psi4 has bounded second partials on the box of the grid, the sphere nodes are inside the "
+            "grid (interpolate's bounds check), lmax<=Ntheta and Psi4 = sum_j a_j sY_j on the sphere nodes, then "
+            "|psi4lm_i - a_i| <= harmSup_i 2pi^2 (bound of T26 for Re + for Im) + sum_{j:m_j=m_i} defectBound |a_j|, "
+            "harmSup = sqrt(R_slm/pi) sum_r |coef_r| >= sup |sY_lm|, sum of the angular weights <= 2 pi^2; (T28) a field that is "
+            "amp sY_{l0m0} on the extraction sphere (e.g. A sY_lm g(r), amp = A g(R)) yields amp at (l0,m0) and 0 at every "
+            "other key within that bound; (T29) explicit rate C1 (hx^2+hy^2+hz^2) + C2/(Ntheta+1)^2, C1 = harmSup pi^2 M/2, "
+            "C2 = sum_j defectConst |a_j|, independent of grid and Ntheta; (T30) CONVERGENCE WITH ANGULAR AND GRID "
+            "RESOLUTION: along any sequence of grids containing the sphere with widths -> 0 and Ntheta -> infinity, "
+            "psi4lm_i -> a_i; (T31) local versions: T26 with regularity only on the cells containing the target, T27 from "
+            "arbitrary node-wise interpolation errors. All hypotheses are instantiated (Psi4 = x^2+y^2 = exAmp (-2)Y_20 on "
+            "the unit sphere, uniform grids of spacing 1/(n+1) on [-2,2]^3, Ntheta = n+2). "
+            "NOT proven, watched only numerically on the real code: the O(h^2) rate for fields that are not smooth in "
+            "Cartesian coordinates — A sY_lm(theta,phi) g(r) is in general discontinuous across the polar axis (e.g. "
+            "(-2)Y_22 ~ cos^4(theta/2) e^{2i phi} at theta=0), so T27-T30 do not apply to the injected pure modes of the "
+            "sentinel s_psi4 (only T31 does, node-wise) —, interpolation methods other than linear, IEEE round-off; the "
+            "constants Ktheta, harmSup, 2pi^2 are rigorous but not sharp; the two proven bounds are additionally checked on "
+            "the REAL code (s_interp_bound: plane waves with a mixed term, quadratics at cell midpoints where 1/8 is "
+            "attained, Gaussians, uniform and irregular grids; s_psi4_bound: rel['Psi4_lm'] on Psi4 = A((x-cx)^2+(y-cy)^2) "
+            "within the bound of T28 and second order in h); independent cross-checks kept: Gauss-Legendre x trapezoid quadrature of all pairs up to lmax 6/10, "
             "Wigner-d/Jacobi evaluation of every (s,l,m), scipy sph_harm_y at s=0, absence of hidden state in "
             "sYlm_coefficients / sYlm_reconstruct (several samplings of one array shape in one process; on the "
             "Gauss-Legendre grid round trip and Gram matrix exact to round-off).",
@@ -1212,6 +1414,10 @@ MANIFEST = {
             "kernel-decided table (l,l'<=12 only, says so in its name), orthonormal_all the general theorem. "
             "roundtrip_partial still carries its hypothesis DiscreteOrthonormal, now PROVEN false on the code's grid "
             "(discrete_orthonormal_is_false, discrete_orthonormal_is_false_spin_m2) and replaced by the closed-form "
-            "defect with bound and limit (roundtrip_defect_closed_form, roundtrip_converges). NaN targets and IEEE "
-            "round-off are outside the model.",
+            "defect with bound and limit (roundtrip_defect_closed_form, roundtrip_converges). Props/C20d states the "
+            "interpolation and extraction bounds about InterpR.interp3 (Model/Interp over the reals; "
+            "real_interpolant_is_model ties it to the executable model, corr_interp ties that to scipy) with the "
+            "regularity hypothesis C2On on axis-parallel slices (continuous on the closed interval, twice differentiable "
+            "inside, second derivative bounded): these are the pure second partials; nothing is assumed about mixed "
+            "partials. NaN targets and IEEE round-off are outside the model.",
 }
